@@ -1501,4 +1501,524 @@ theorem manik_roundtrip' (first : Text) (rows : List SvmRow) (hok : ∀ r ∈ ro
   simp [manikRead, libsvm_roundtrip' rows hok]
 
 
+
+/-! ## C.3 ARFF dense data lines -/
+
+
+section arff
+variable (qc : Option Nat)
+
+/-- the effective quote character is one of the two quote characters -/
+def QeOk (qc : Option Nat) : Prop := qc.getD DQ = SQ ∨ qc.getD DQ = DQ
+
+theorem arff_sf_space (fs : List Text) (h : QeOk qc) :
+    csvChar (arffDialect COMMA qc) ⟨.startField, [], fs⟩ (some 32) = .ok ⟨.startField, [], fs⟩ := by
+  have h1 : ¬ (qc.getD DQ = 32) := by rcases h with h | h <;> rw [h] <;> decide
+  have h2 : isNl 32 = false := by decide
+  simp [csvChar, csvStartField, arffDialect, h1, h2, goto, BS]
+
+theorem arff_sf_quote (fs : List Text) (h : QeOk qc) :
+    csvChar (arffDialect COMMA qc) ⟨.startField, [], fs⟩ (some (qc.getD DQ)) = .ok ⟨.inQuoted, [], fs⟩ := by
+  have h2 : isNl (qc.getD DQ) = false := by rcases h with h | h <;> rw [h] <;> decide
+  simp [csvChar, csvStartField, arffDialect, h2, goto]
+
+theorem arff_sf_bare (fs : List Text) (c : Nat) (h : QeOk qc) (h1 : isNl c = false) (h2 : c ≠ COMMA) (h3 : c ≠ SQ)
+    (h4 : c ≠ DQ) (h5 : c ≠ BS) (h6 : c ≠ 32) :
+    csvChar (arffDialect COMMA qc) ⟨.startField, [], fs⟩ (some c) = .ok ⟨.inField, [c], fs⟩ := by
+  have hq : ¬ (qc.getD DQ = c) := by rcases h with h | h <;> rw [h] <;> intro e <;> simp_all
+  have hb : ¬ (BS = c) := fun e => h5 e.symm
+  simp [csvChar, csvStartField, arffDialect, h1, hq, hb, h6, h2, addChar]
+
+theorem arff_sf_delim (fs : List Text) (h : QeOk qc) :
+    csvChar (arffDialect COMMA qc) ⟨.startField, [], fs⟩ (some COMMA) = .ok ⟨.startField, [], fs ++ [[]]⟩ := by
+  have hq : ¬ (qc.getD DQ = COMMA) := by rcases h with h | h <;> rw [h] <;> decide
+  have h2 : isNl COMMA = false := by decide
+  have h3 : ¬ (BS = COMMA) := by decide
+  have h4 : ¬ (COMMA = 32) := by decide
+  simp [csvChar, csvStartField, arffDialect, h2, hq, h3, h4, saveField]
+
+theorem arff_sf_eol (fs : List Text) :
+    csvChar (arffDialect COMMA qc) ⟨.startField, [], fs⟩ none = .ok ⟨.startRecord, [], fs ++ [[]]⟩ := by
+  simp [csvChar, csvStartField, saveField]
+
+theorem arff_if_char (acc : Text) (fs : List Text) (c : Nat) (h1 : isNl c = false) (h2 : c ≠ COMMA) (h5 : c ≠ BS) :
+    csvChar (arffDialect COMMA qc) ⟨.inField, acc, fs⟩ (some c) = .ok ⟨.inField, acc ++ [c], fs⟩ := by
+  have hb : ¬ (BS = c) := fun e => h5 e.symm
+  simp [csvChar, csvInField, arffDialect, h1, hb, h2, addChar]
+
+theorem arff_if_delim (acc : Text) (fs : List Text) :
+    csvChar (arffDialect COMMA qc) ⟨.inField, acc, fs⟩ (some COMMA) = .ok ⟨.startField, [], fs ++ [acc]⟩ := by
+  have h2 : isNl COMMA = false := by decide
+  have h3 : ¬ (BS = COMMA) := by decide
+  simp [csvChar, csvInField, arffDialect, h2, h3, saveField]
+
+theorem arff_if_eol (acc : Text) (fs : List Text) :
+    csvChar (arffDialect COMMA qc) ⟨.inField, acc, fs⟩ none = .ok ⟨.startRecord, [], fs ++ [acc]⟩ := by
+  simp [csvChar, csvInField, saveField]
+
+theorem arff_iq_esc (acc : Text) (fs : List Text) :
+    csvChar (arffDialect COMMA qc) ⟨.inQuoted, acc, fs⟩ (some BS) = .ok ⟨.escInQuoted, acc, fs⟩ := by
+  simp [csvChar, arffDialect, goto]
+
+theorem arff_eq_any (acc : Text) (fs : List Text) (c : Nat) :
+    csvChar (arffDialect COMMA qc) ⟨.escInQuoted, acc, fs⟩ (some c) = .ok ⟨.inQuoted, acc ++ [c], fs⟩ := by
+  simp [csvChar, addChar]
+
+theorem arff_iq_quote (acc : Text) (fs : List Text) (h : QeOk qc) :
+    csvChar (arffDialect COMMA qc) ⟨.inQuoted, acc, fs⟩ (some (qc.getD DQ)) = .ok ⟨.inField, acc, fs⟩ := by
+  have hb : ¬ (BS = qc.getD DQ) := by rcases h with h | h <;> rw [h] <;> decide
+  simp [csvChar, arffDialect, hb, goto]
+
+theorem arff_iq_char (acc : Text) (fs : List Text) (c : Nat) (h1 : c ≠ qc.getD DQ) (h2 : c ≠ BS) :
+    csvChar (arffDialect COMMA qc) ⟨.inQuoted, acc, fs⟩ (some c) = .ok ⟨.inQuoted, acc ++ [c], fs⟩ := by
+  have hb : ¬ (BS = c) := fun e => h2 e.symm
+  have hq : ¬ (qc.getD DQ = c) := fun e => h1 e.symm
+  simp [csvChar, arffDialect, hb, hq, addChar]
+
+theorem arffFeed_spaces (fs : List Text) (k : Nat) (rest : Text) (h : QeOk qc) :
+    csvFeed (arffDialect COMMA qc) ⟨.startField, [], fs⟩ (List.replicate k 32 ++ rest) =
+      csvFeed (arffDialect COMMA qc) ⟨.startField, [], fs⟩ rest := by
+  induction k with
+  | zero => simp
+  | succ k ih => simp only [List.replicate_succ, List.cons_append, csvFeed, arff_sf_space qc fs h]; exact ih
+
+theorem arffFeed_quoted (also : Nat → Bool) (v acc : Text) (fs : List Text) (rest : Text) :
+    csvFeed (arffDialect COMMA qc) ⟨.inQuoted, acc, fs⟩ (arffEscape (qc.getD DQ) also v ++ rest) =
+      csvFeed (arffDialect COMMA qc) ⟨.inQuoted, acc ++ v, fs⟩ rest := by
+  induction v generalizing acc with
+  | nil => simp [arffEscape]
+  | cons c v ih =>
+    by_cases hc : c = qc.getD DQ ∨ c = BS ∨ also c = true
+    · simp only [arffEscape, hc, if_true, List.cons_append, csvFeed, arff_iq_esc, arff_eq_any]
+      rw [ih]; simp
+    · have hc' := hc
+      simp only [not_or] at hc'
+      simp only [arffEscape, hc, if_false, List.cons_append, csvFeed, arff_iq_char qc acc fs c hc'.1 hc'.2.1]
+      rw [ih]; simp
+
+theorem arffFeed_bare (f acc : Text) (fs : List Text) (rest : Text)
+    (h : ∀ c ∈ f, isNl c = false ∧ c ≠ COMMA ∧ c ≠ BS) :
+    csvFeed (arffDialect COMMA qc) ⟨.inField, acc, fs⟩ (f ++ rest) = csvFeed (arffDialect COMMA qc) ⟨.inField, acc ++ f, fs⟩ rest := by
+  induction f generalizing acc with
+  | nil => simp
+  | cons c f ih =>
+    have hc := h c (by simp)
+    simp only [List.cons_append, csvFeed, arff_if_char qc acc fs c hc.1 hc.2.1 hc.2.2]
+    rw [ih (acc ++ [c]) (fun d hd => h d (by simp [hd]))]
+    simp
+
+theorem bareOk_mem (v : Text) (h : bareOk v = true) :
+    (∀ c ∈ v, isNl c = false ∧ c ≠ COMMA ∧ c ≠ SQ ∧ c ≠ DQ ∧ c ≠ BS) ∧ (∀ c t, v = c :: t → c ≠ 32) := by
+  unfold bareOk at h
+  simp only [Bool.and_eq_true] at h
+  constructor
+  · intro c hc
+    have := List.all_eq_true.mp h.1 c hc
+    simp only [Bool.not_eq_true', Bool.or_eq_false_iff, beq_eq_false_iff_ne] at this
+    exact ⟨this.2, this.1.1.1.1, this.1.1.1.2, this.1.1.2, this.1.2⟩
+  · intro c t hv
+    subst hv
+    simpa using h.2
+
+/-- a token is written quoted -/
+def tokQuoted (x : Bool × Text) : Bool := x.1 || !bareOk x.2
+
+/-- a written token followed by `,` and blanks -/
+theorem arffFeed_tok_delim (also : Nat → Bool) (x : Bool × Text) (fs : List Text) (pad : Nat) (rest : Text)
+    (h : QeOk qc) :
+    csvFeed (arffDialect COMMA qc) ⟨.startField, [], fs⟩
+        (arffWriteTok (qc.getD DQ) also x ++ COMMA :: (List.replicate pad 32 ++ rest)) =
+      csvFeed (arffDialect COMMA qc) ⟨.startField, [], fs ++ [x.2]⟩ rest := by
+  unfold arffWriteTok
+  by_cases hq : (x.1 || !bareOk x.2) = true
+  · simp only [hq, if_true, List.cons_append, List.append_assoc, csvFeed, arff_sf_quote qc fs h]
+    rw [arffFeed_quoted]
+    simp only [List.nil_append, List.cons_append, csvFeed, arff_iq_quote qc _ _ h, arff_if_delim]
+    exact arffFeed_spaces qc _ pad rest h
+  · have hq' : (x.1 || !bareOk x.2) = false := by simpa using hq
+    have hb : bareOk x.2 = true := by
+      cases hx : x.1 <;> simp_all
+    obtain ⟨hall, hfirst⟩ := bareOk_mem x.2 hb
+    simp only [hq', Bool.false_eq_true, if_false]
+    cases hf : x.2 with
+    | nil =>
+      simp only [List.nil_append, csvFeed, arff_sf_delim qc fs h]
+      exact arffFeed_spaces qc _ pad rest h
+    | cons c f =>
+      rw [hf] at hall
+      have hc := hall c (by simp)
+      simp only [List.cons_append, csvFeed,
+        arff_sf_bare qc fs c h hc.1 hc.2.1 hc.2.2.1 hc.2.2.2.1 hc.2.2.2.2 (hfirst c f hf)]
+      rw [arffFeed_bare qc f [c] fs _ (fun d hd => ⟨(hall d (by simp [hd])).1, (hall d (by simp [hd])).2.1, (hall d (by simp [hd])).2.2.2.2⟩)]
+      simp only [List.singleton_append, csvFeed, arff_if_delim]
+      exact arffFeed_spaces qc _ pad rest h
+
+/-- a written token at the end of the line -/
+theorem arffLine_tok (also : Nat → Bool) (x : Bool × Text) (fs : List Text) (h : QeOk qc) :
+    csvLine (arffDialect COMMA qc) ⟨.startField, [], fs⟩ (arffWriteTok (qc.getD DQ) also x) =
+      .ok ⟨.startRecord, [], fs ++ [x.2]⟩ := by
+  unfold arffWriteTok csvLine
+  by_cases hq : (x.1 || !bareOk x.2) = true
+  · simp only [hq, if_true, csvFeed, arff_sf_quote qc fs h]
+    rw [arffFeed_quoted]
+    simp only [List.nil_append, csvFeed, arff_iq_quote qc _ _ h, arff_if_eol]
+  · have hq' : (x.1 || !bareOk x.2) = false := by simpa using hq
+    have hb : bareOk x.2 = true := by
+      cases hx : x.1 <;> simp_all
+    obtain ⟨hall, hfirst⟩ := bareOk_mem x.2 hb
+    simp only [hq', Bool.false_eq_true, if_false]
+    cases hf : x.2 with
+    | nil => simp only [csvFeed, arff_sf_eol]
+    | cons c f =>
+      rw [hf] at hall
+      have hc := hall c (by simp)
+      simp only [csvFeed, arff_sf_bare qc fs c h hc.1 hc.2.1 hc.2.2.1 hc.2.2.2.1 hc.2.2.2.2 (hfirst c f hf)]
+      have := arffFeed_bare qc f [c] fs [] (fun d hd => ⟨(hall d (by simp [hd])).1, (hall d (by simp [hd])).2.1, (hall d (by simp [hd])).2.2.2.2⟩)
+      simp only [List.append_nil] at this
+      rw [this]
+      simp only [List.singleton_append, csvFeed, arff_if_eol]
+
+/-- a written row from START_FIELD, when its quoted tokens use the reader's effective quote character -/
+theorem arffLine_row (also : Nat → Bool) (pad : Nat) (row : List (Bool × Text)) (fs : List Text) (hne : row ≠ [])
+    (h : QeOk qc) :
+    csvLine (arffDialect COMMA qc) ⟨.startField, [], fs⟩ (arffWriteRow (qc.getD DQ) also pad row) =
+      .ok ⟨.startRecord, [], fs ++ row.map (·.2)⟩ := by
+  induction row generalizing fs with
+  | nil => exact absurd rfl hne
+  | cons x xs ih =>
+    cases xs with
+    | nil => simp [arffWriteRow, arffLine_tok qc also x fs h]
+    | cons y ys =>
+      have := ih (fs ++ [x.2]) (by simp)
+      simp only [arffWriteRow, csvLine] at this ⊢
+      rw [arffFeed_tok_delim qc also x fs pad _ h, this]
+      simp
+
+end arff
+
+
+
+
+def otherQ (q : Nat) : Nat := if q = SQ then DQ else SQ
+
+theorem arffEscape_mem (q : Nat) (also : Nat → Bool) (v : Text) (c : Nat) (h : c ∈ arffEscape q also v) : c = BS ∨ c ∈ v := by
+  induction v with
+  | nil => simp [arffEscape] at h
+  | cons a v ih =>
+    simp only [arffEscape] at h
+    split at h
+    · simp only [List.mem_cons] at h
+      rcases h with h | h | h
+      · left; exact h
+      · right; simp [h]
+      · rcases ih h with h | h
+        · left; exact h
+        · right; simp [h]
+    · simp only [List.mem_cons] at h
+      rcases h with h | h
+      · right; simp [h]
+      · rcases ih h with h | h
+        · left; exact h
+        · right; simp [h]
+
+theorem arffWriteTok_mem (q : Nat) (also : Nat → Bool) (x : Bool × Text) (c : Nat) (h : c ∈ arffWriteTok q also x) :
+    (c = q ∧ tokQuoted x = true) ∨ c = BS ∨ c ∈ x.2 := by
+  unfold arffWriteTok at h
+  split at h
+  · rename_i hq
+    simp only [List.mem_cons, List.mem_append, List.not_mem_nil, or_false] at h
+    rcases h with h | h | h
+    · left; exact ⟨h, hq⟩
+    · rcases arffEscape_mem _ _ _ _ h with h | h
+      · right; left; exact h
+      · right; right; exact h
+    · left; exact ⟨h, hq⟩
+  · right; right; exact h
+
+theorem arffWriteRow_mem (q : Nat) (also : Nat → Bool) (pad : Nat) (row : List (Bool × Text)) (c : Nat)
+    (h : c ∈ arffWriteRow q also pad row) :
+    c = COMMA ∨ c = 32 ∨ c = BS ∨ (c = q ∧ ∃ x ∈ row, tokQuoted x = true) ∨ ∃ x ∈ row, c ∈ x.2 := by
+  induction row with
+  | nil => simp [arffWriteRow] at h
+  | cons x xs ih =>
+    have tok : c ∈ arffWriteTok q also x → c = COMMA ∨ c = 32 ∨ c = BS ∨ (c = q ∧ ∃ y ∈ x :: xs, tokQuoted y = true) ∨ ∃ y ∈ x :: xs, c ∈ y.2 := by
+      intro h
+      rcases arffWriteTok_mem q also x c h with h | h | h
+      · right; right; right; left; exact ⟨h.1, x, by simp, h.2⟩
+      · right; right; left; exact h
+      · right; right; right; right; exact ⟨x, by simp, h⟩
+    cases xs with
+    | nil => exact tok (by simpa [arffWriteRow] using h)
+    | cons y ys =>
+      simp only [arffWriteRow, List.mem_append, List.mem_cons, List.mem_replicate] at h
+      rcases h with h | h | h | h
+      · exact tok h
+      · left; exact h
+      · right; left; exact h.2
+      · rcases ih h with h | h | h | h | h
+        · left; exact h
+        · right; left; exact h
+        · right; right; left; exact h
+        · right; right; right; left
+          obtain ⟨hq, z, hz, hz2⟩ := h
+          exact ⟨hq, z, by simp at hz ⊢; right; exact hz, hz2⟩
+        · right; right; right; right
+          obtain ⟨z, hz, hz2⟩ := h
+          exact ⟨z, by simp at hz ⊢; right; exact hz, hz2⟩
+
+theorem arffWriteTok_sub (q : Nat) (also : Nat → Bool) (pad : Nat) (row : List (Bool × Text)) (x : Bool × Text)
+    (hx : x ∈ row) : ∀ c ∈ arffWriteTok q also x, c ∈ arffWriteRow q also pad row := by
+  induction row with
+  | nil => simp at hx
+  | cons y ys ih =>
+    intro c hc
+    cases ys with
+    | nil =>
+      simp only [List.mem_singleton] at hx
+      subst hx; simpa [arffWriteRow] using hc
+    | cons z zs =>
+      simp only [List.mem_cons] at hx
+      simp only [arffWriteRow, List.mem_append, List.mem_cons]
+      rcases hx with hx | hx
+      · subst hx; left; exact hc
+      · right; right; right
+        exact ih (by simpa using hx) c hc
+
+section
+variable (q : Nat) (hq : q = SQ ∨ q = DQ)
+
+theorem rowOk_parts (row : List (Bool × Text)) (h : arffRowOk q row = true) :
+    row ≠ [] ∧ (∀ x ∈ row, ∀ c ∈ x.2, isNl c = false ∧ ((c = SQ ∨ c = DQ) → c = q)) ∧
+    (∀ x, row = [x] → x.2 ≠ [] ∨ x.1 = true) := by
+  unfold arffRowOk at h
+  simp only [Bool.and_eq_true, decide_eq_true_eq] at h
+  refine ⟨h.1.1, ?_, ?_⟩
+  · intro x hx c hc
+    have := List.all_eq_true.mp (List.all_eq_true.mp h.1.2 x hx) c hc
+    simp only [Bool.and_eq_true, ne_eq, Bool.and_eq_false_iff,
+      Bool.or_eq_false_iff, beq_eq_false_iff_ne, Bool.not_eq_eq_eq_not, Bool.not_true, bne_eq_false_iff_eq] at this
+    refine ⟨this.1, ?_⟩
+    intro hc2
+    rcases this.2 with h' | h'
+    · rcases hc2 with h2 | h2
+      · exact absurd h2 h'.1
+      · exact absurd h2 h'.2
+    · exact h'
+  · intro x hr
+    subst hr
+    simpa using h.2
+
+/-- the file's quote character is in a written line exactly when some value was written quoted;
+the other quote character never is -/
+theorem line_quotes (also : Nat → Bool) (pad : Nat) (row : List (Bool × Text)) (hq : q = SQ ∨ q = DQ)
+    (h : arffRowOk q row = true) :
+    ((arffWriteRow q also pad row).contains q = row.any tokQuoted) ∧
+    (arffWriteRow q also pad row).contains (otherQ q) = false := by
+  obtain ⟨_, hvals, _⟩ := rowOk_parts q row h
+  have hqne : q ≠ COMMA ∧ q ≠ 32 ∧ q ≠ BS := by rcases hq with h | h <;> subst h <;> decide
+  have hone : otherQ q ≠ COMMA ∧ otherQ q ≠ 32 ∧ otherQ q ≠ BS ∧ otherQ q ≠ q ∧ (otherQ q = SQ ∨ otherQ q = DQ) := by
+    rcases hq with h | h <;> subst h <;> decide
+  constructor
+  · apply Bool.eq_iff_iff.mpr
+    simp only [List.contains_iff_mem, List.any_eq_true]
+    constructor
+    · intro hm
+      rcases arffWriteRow_mem q also pad row q hm with h | h | h | h | h
+      · exact absurd h hqne.1
+      · exact absurd h hqne.2.1
+      · exact absurd h hqne.2.2
+      · exact h.2
+      · obtain ⟨x, hx, hc⟩ := h
+        refine ⟨x, hx, ?_⟩
+        unfold tokQuoted
+        have hb : bareOk x.2 = false := by
+          cases hbb : bareOk x.2 with
+          | false => rfl
+          | true =>
+            have := (bareOk_mem x.2 hbb).1 q hc
+            rcases hq with h | h
+            · exact absurd h this.2.2.1
+            · exact absurd h this.2.2.2.1
+        simp [hb]
+    · intro ⟨x, hx, hxq⟩
+      apply arffWriteTok_sub q also pad row x hx
+      unfold arffWriteTok
+      unfold tokQuoted at hxq
+      simp [hxq]
+  · cases hcont : (arffWriteRow q also pad row).contains (otherQ q) with
+    | false => rfl
+    | true =>
+      exfalso
+      simp only [List.contains_iff_mem] at hcont
+      rcases arffWriteRow_mem q also pad row _ hcont with h | h | h | h | h
+      · exact hone.1 h
+      · exact hone.2.1 h
+      · exact hone.2.2.1 h
+      · exact hone.2.2.2.1 h.1
+      · obtain ⟨x, hx, hc⟩ := h
+        exact hone.2.2.2.1 ((hvals x hx _ hc).2 hone.2.2.2.2)
+end
+
+theorem arffWriteRow_unquoted (q q' : Nat) (also : Nat → Bool) (pad : Nat) (row : List (Bool × Text))
+    (h : row.any tokQuoted = false) : arffWriteRow q also pad row = arffWriteRow q' also pad row := by
+  induction row with
+  | nil => rfl
+  | cons x xs ih =>
+    simp only [List.any_cons, Bool.or_eq_false_iff] at h
+    have hx : arffWriteTok q also x = arffWriteTok q' also x := by
+      unfold arffWriteTok
+      have := h.1
+      unfold tokQuoted at this
+      simp [this]
+    cases xs with
+    | nil => simp [arffWriteRow, hx]
+    | cons y ys =>
+      simp only [arffWriteRow, hx]
+      rw [ih (by simpa using h.2)]
+
+/-- the bookkeeping of `_dense_simple` on a written line: the quote character becomes the file's
+one as soon as a quoted value is seen -/
+theorem simpleQuote_written (q : Nat) (hq : q = SQ ∨ q = DQ) (qc : Option Nat) (hqc : qc = none ∨ qc = some q)
+    (line : Text) (hasQ : Bool) (h1 : line.contains q = hasQ) (h2 : line.contains (otherQ q) = false) :
+    simpleQuote qc line = some (if hasQ then some q else qc) := by
+  unfold simpleQuote
+  rcases hq with h | h <;> subst h
+  · have e : otherQ SQ = DQ := by decide
+    rw [e] at h2
+    simp only [h1, h2]
+    rcases hqc with h | h <;> subst h <;> cases hasQ <;> decide
+  · have e : otherQ DQ = SQ := by decide
+    rw [e] at h2
+    simp only [h1, h2]
+    rcases hqc with h | h <;> subst h <;> cases hasQ <;> decide
+
+
+
+
+
+theorem arffWriteRow_head (q : Nat) (hq : q = SQ ∨ q = DQ) (also : Nat → Bool) (pad : Nat) (row : List (Bool × Text))
+    (h : arffRowOk q row = true) : ∃ c t, arffWriteRow q also pad row = c :: t ∧ isNl c = false := by
+  obtain ⟨hne, hvals, hlone⟩ := rowOk_parts q row h
+  have hnl : ∀ c ∈ arffWriteRow q also pad row, isNl c = false := by
+    intro c hc
+    rcases arffWriteRow_mem q also pad row c hc with h | h | h | h | h
+    · subst h; decide
+    · subst h; decide
+    · subst h; decide
+    · rw [h.1]; rcases hq with h' | h' <;> subst h' <;> decide
+    · obtain ⟨x, hx, hcx⟩ := h
+      exact (hvals x hx c hcx).1
+  have hnonempty : arffWriteRow q also pad row ≠ [] := by
+    cases row with
+    | nil => exact absurd rfl hne
+    | cons x xs =>
+      cases xs with
+      | nil =>
+        simp only [arffWriteRow]
+        unfold arffWriteTok
+        split
+        · simp
+        · rename_i hnq
+          rcases hlone x rfl with h' | h'
+          · exact h'
+          · simp [h'] at hnq
+      | cons y ys => simp [arffWriteRow]
+  cases hl : arffWriteRow q also pad row with
+  | nil => exact absurd hl hnonempty
+  | cons c t => exact ⟨c, t, rfl, hnl c (by rw [hl]; simp)⟩
+
+/-- `csv.reader([line], **dialect)` on a written line, for every reader state the file can produce -/
+theorem csvFirst_written (q : Nat) (hq : q = SQ ∨ q = DQ) (also : Nat → Bool) (pad : Nat) (row : List (Bool × Text))
+    (h : arffRowOk q row = true) (qc : Option Nat) (hqc : qc = none ∨ qc = some q)
+    (hquoted : row.any tokQuoted = true → qc = some q) :
+    csvFirst (arffDialect COMMA qc) (arffWriteRow q also pad row) = .ok (row.map (·.2)) := by
+  have hqe : QeOk qc := by
+    unfold QeOk
+    rcases hqc with h' | h' <;> subst h'
+    · right; rfl
+    · simpa using hq
+  have hline : arffWriteRow q also pad row = arffWriteRow (qc.getD DQ) also pad row := by
+    cases hany : row.any tokQuoted with
+    | true => rw [hquoted hany]; rfl
+    | false => exact arffWriteRow_unquoted q _ also pad row hany
+  obtain ⟨c, t, he, hc⟩ := arffWriteRow_head q hq also pad row h
+  have hne : row ≠ [] := (rowOk_parts q row h).1
+  have hrow := arffLine_row qc also pad row [] hne hqe
+  rw [← hline, he] at hrow
+  unfold csvFirst
+  simp only [csvRecords, he]
+  have : csvLine (arffDialect COMMA qc) CsvR.reset (c :: t) = .ok ⟨.startRecord, [], row.map (·.2)⟩ := by
+    simp only [csvLine, csvFeed, CsvR.reset, csv_startRecord_eq _ _ _ c hc] at hrow ⊢
+    simpa using hrow
+  rw [this]
+  simp [CsvR.reset]
+
+def ALR.Inv (q : Nat) (s : ALR) : Prop :=
+  s = ALR.init ∨ (s.started = true ∧ s.delim = COMMA ∧ (s.qc = none ∨ s.qc = some q))
+
+theorem arffSimple_written (q : Nat) (hq : q = SQ ∨ q = DQ) (also : Nat → Bool) (pad : Nat) (row : List (Bool × Text))
+    (h : arffRowOk q row = true) (s : ALR) (hd : s.delim = COMMA) (hqc : s.qc = none ∨ s.qc = some q) :
+    arffSimple row.length s (arffWriteRow q also pad row) =
+      .ok ({ s with qc := if row.any tokQuoted then some q else s.qc }, row.map (·.2)) := by
+  obtain ⟨hc1, hc2⟩ := line_quotes q also pad row hq h
+  unfold arffSimple
+  rw [simpleQuote_written q hq s.qc hqc _ _ hc1 hc2, hd]
+  simp only
+  rw [csvFirst_written q hq also pad row h _ (by
+        cases row.any tokQuoted <;> simp [hqc]) (by
+        intro ha; simp [ha])]
+  simp
+
+theorem arffFirst_written (q : Nat) (hq : q = SQ ∨ q = DQ) (also : Nat → Bool) (pad : Nat) (row : List (Bool × Text))
+    (h : arffRowOk q row = true) :
+    arffFirst row.length (arffWriteRow q also pad row) =
+      .ok (⟨true, false, if row.any tokQuoted then some q else none, COMMA⟩, row.map (·.2)) := by
+  obtain ⟨hc1, hc2⟩ := line_quotes q also pad row hq h
+  have hqc0 : (if (arffWriteRow q also pad row).contains DQ then some DQ else if (arffWriteRow q also pad row).contains SQ then some SQ else none)
+      = (if row.any tokQuoted then some q else none) := by
+    rcases hq with h' | h' <;> subst h'
+    · have e : otherQ SQ = DQ := by decide
+      rw [e] at hc2
+      rw [hc1, hc2]; simp
+    · have e : otherQ DQ = SQ := by decide
+      rw [e] at hc2
+      rw [hc1, hc2]; cases row.any tokQuoted <;> simp
+  have hboth : ((arffWriteRow q also pad row).contains DQ && (arffWriteRow q also pad row).contains SQ) = false := by
+    rcases hq with h' | h' <;> subst h'
+    · have e : otherQ SQ = DQ := by decide
+      rw [e] at hc2; rw [hc2]; rfl
+    · have e : otherQ DQ = SQ := by decide
+      rw [e] at hc2; rw [hc2]; exact Bool.and_false _
+  unfold arffFirst
+  simp only [hboth, Bool.false_eq_true, if_false, hqc0]
+  have hq2 : (if row.any tokQuoted then some q else (none : Option Nat)) = none ∨ (if row.any tokQuoted then some q else (none : Option Nat)) = some q := by
+    cases row.any tokQuoted <;> simp
+  rw [csvFirst_written q hq also pad row h _ hq2 (by intro ha; simp [ha])]
+  simp only [List.length_map, if_true]
+  have := arffSimple_written q hq also pad row h ⟨true, false, if row.any tokQuoted then some q else none, COMMA⟩ rfl hq2
+  rw [this]
+  cases row.any tokQuoted <;> simp
+
+theorem arffLines_written (q : Nat) (hq : q = SQ ∨ q = DQ) (also : Nat → Bool) (n : Nat)
+    (rows : List (Nat × List (Bool × Text))) (hok : ∀ r ∈ rows, arffRowOk q r.2 = true ∧ r.2.length = n)
+    (s : ALR) (hs : ALR.Inv q s) :
+    arffLines n s (rows.map (fun r => arffWriteRow q also r.1 r.2)) = .ok (rows.map (·.2.map (·.2))) := by
+  induction rows generalizing s with
+  | nil => rfl
+  | cons r rs ih =>
+    obtain ⟨hr, hlen⟩ := hok r (by simp)
+    simp only [List.map_cons, arffLines, arffLineStep]
+    rcases hs with hs | ⟨hst, hd, hqc⟩
+    · subst hs
+      simp only [ALR.init, Bool.false_eq_true, if_false]
+      rw [← hlen, arffFirst_written q hq also r.1 r.2 hr]
+      simp only
+      rw [hlen, ih (fun r' hr' => hok r' (by simp [hr'])) _ (Or.inr ⟨rfl, rfl, by cases r.2.any tokQuoted <;> simp⟩)]
+    · simp only [hst, if_true]
+      rw [← hlen, arffSimple_written q hq also r.1 r.2 hr s hd hqc]
+      simp only
+      rw [hlen, ih (fun r' hr' => hok r' (by simp [hr'])) { s with qc := if r.2.any tokQuoted then some q else s.qc }
+        (Or.inr ⟨hst, hd, by cases r.2.any tokQuoted <;> simp [hqc]⟩)]
+
+
 end Coba.C12
